@@ -500,6 +500,22 @@ class Session:
                 kw['team_names'] = RecDict(kw['team_names'])
             real_init(th, *a, **kw)
         PT.__init__ = pt_init
+        # the clients' local replicas of each board (auction and single-seat observer) are collected for comparison with
+        # the table manager's log: subclasses of the real classes that only register their instances
+        replicas = []
+        RealBP, RealOPP = client_mod.BiddingPhase, client_mod.ObservedPlayingPhase
+
+        class RecBiddingPhase(RealBP):
+            def __init__(self_, *a, **k):
+                RealBP.__init__(self_, *a, **k)
+                replicas.append((ctl.key(), 'auction', self_))
+
+        class RecObserved(RealOPP):
+            def __init__(self_, *a, **k):
+                RealOPP.__init__(self_, *a, **k)
+                replicas.append((ctl.key(), 'play', self_))
+        patch(client_mod, 'BiddingPhase', RecBiddingPhase)
+        patch(client_mod, 'ObservedPlayingPhase', RecObserved)
         threads = []
         try:
             server = server_mod.Server('fake', 2000, pathlib.Path(self.out_path), self.boards)
@@ -601,6 +617,7 @@ class Session:
             PT.__init__ = real_init
             for (mod, name), val in saved.items():
                 setattr(mod, name, val)
+        self.result['replicas'] = replicas
         self.result['traces'] = {k: [dict(o) for o in tr] for k, tr in ctl.traces.items()}
         self.result['finished'] = sorted(ctl.finished)
         self.result['errors'] = list(ctl.errors)
